@@ -19,7 +19,7 @@ ASSUMPTIONS = [
 SHARDS = E.SHARDS
 TIMEOUT = E.TIMEOUT
 MINIMUMS = {
-    "quick": {"distinct_plan_trace": 2000, "launch_events": 4000, "feature:resubmit": 50, "feature:fail": 100, "feature:foreign": 30},
+    "quick": {"feature:cleaned": 40, "distinct_plan_trace": 2000, "launch_events": 4000, "feature:resubmit": 50, "feature:fail": 100, "feature:foreign": 30},
     "thorough": {"distinct_plan_trace": 80000, "launch_events": 150000, "feature:resubmit": 2000, "feature:fail": 4000, "feature:foreign": 1000},
 }
 PROFILES = [
@@ -28,6 +28,7 @@ PROFILES = [
     PlanProfile(tokens=2, p_fail=0.15, p_resubmit=0.5, foreign=0.6, two_tokens=0.5),
     PlanProfile(tokens=0, p_fail=0.3, p_resubmit=0.5, multi_run=0.5),
     PlanProfile(tokens=1, p_fail=0.1, multi_run=0.6, p_dup=0.3),
+    PlanProfile(tokens=0, p_fail=0.1, multi_run=1.0, p_abort=0.2, p_clean=0.9, p_edge=0.6),
 ]
 worker = E.make_worker(PROPERTY, PROFILES, {"quick": 960, "thorough": 24000}, {"quick": 5, "thorough": 5})
 replay = E.make_replay(PROPERTY)
